@@ -26,6 +26,8 @@ CLAIMED = {
          "Not decided: planner metadata (HasAuthorizationRule), entity/batch prepare variants, response-side nulling (pending), seeding completeness (pending)."),
  "C07": ("Guards proved on Loader.mergeResult for every path: merges/Set/taint happen only when the fetch did not fail (transport error, rejected, skipped, empty body); a transport error is reported; a fetch with an errored dependency is not prepared; loadPhase is reached only after a successful prepare.",
          "Not decided: liveness (returns promptly), byte-identity of the unaffected part, the HTTP client; error renderers are assumed effect summaries."),
+ "C10": ("Deductive proof of the incremental-delivery protocol per frame and per scheduling step: every deferred frame moves the outstanding counter by +announced children -1 (error frames -1), prints exactly one completed entry for the current defer and exactly one hasNext equal to (outstanding != 0), announces exactly the live direct children it returns; the initial frame announces exactly the live top-level defers with hasNext iff there are any and nothing outside defer mode; a frame is rendered and flushed inside one critical section of the data lock (frames never interleave); a Sequence schedules only the subtrees pruned by what its parent announced, the top level only the tree pruned by the live top-level set with the counter starting at their number; the stream is terminated (Complete) on every exit after the initial flush; pruneDeadDefers/topDeferID functional contracts; and in postprocess: after buildDeferTree every descriptor that will be announced owns a fetch group (defect F19 - a pending id that is never completed - found as the missing plan invariant and fixed).",
+         "Not decided: merge(initial, incrementals) == data(q without @defer) (relational), the tree-wide counting identity outstanding == |announced minus completed| under concurrent branches (paper lemma; assumed as protocol invariant where the counter arithmetic needs it), completeness of liveChildDescriptors, termination, normalization and planning of @defer. Side findings outside the decided part (recorded in DESIGN.md): an introspection field inside @defer nulls the response; a nested @defer under a mutation root field executes the mutation twice."),
  "C11": ("Deductive proof on both single flights (inbound requests and subgraph requests): eligibility (only queries, disable flags respected), the de-duplication key as a term over all its components (request id, variables hash, headers hash; data source id, input, headers hash) checked where the key reaches sync.Map.LoadOrStore, follower buffers (inbound: a private copy; subgraph: exactly the leader's published bytes or the leader's error), a follower sends nothing, and the close-once discipline as a linear ghost permission: created at the non-shared LoadOrStore, required and consumed at close(), never held by a follower, consumed on every leader path of ArenaResolveGraphQLResponse and loadByContext (defect F7 — double close after a late follower — found by the follower postcondition of GetOrCreate and fixed).",
          "Not decided: liveness/no goroutine blocked forever as a history property, equality with the un-deduplicated bytes (C01-level), lifetime of the shared buffer, panics inside the leader's work (a panicking leader never finishes), hash collisions. Interleavings are not explored."),
  "C08": ("Lock discipline and phase order proved on the loader: preparePhase and mergePhase hold the data lock for all accesses to the shared tree (mutex typestate obligations at every call), the lock is released on every path, loadPhase and the cache flush run unlocked, merge happens after load in program order; Loader.dataBuffer is a stable field (package-wide SSA scan).",
